@@ -18,19 +18,26 @@ namespace Mofun.Cli
 
 /-! ## suffix dispatch (`pathlib.PurePath.suffix`) -/
 
+/-- the last path component: the characters after the last `/` -/
+def baseName : List Char → List Char
+  | [] => []
+  | c :: rest => if rest.contains '/' then baseName rest else if c = '/' then rest else c :: rest
+
+/-- position of the last `.` of a name, counted from the left -/
+def lastDot (l : List Char) (i : Nat) (acc : Option Nat) : Option Nat :=
+  match l with
+  | [] => acc
+  | c :: rest => lastDot rest (i + 1) (if c = '.' then some i else acc)
+
 /-- `pathlib` suffix of the last path component: the text from the last `.` on, when that dot is neither the
-    first nor the last character of the name; otherwise empty. -/
-def suffixOf (path : String) : String :=
-  let name := (path.splitOn "/").getLast!
-  let cs := name.toList
-  -- position of the last '.', counted from the left
-  let rec lastDot (l : List Char) (i : Nat) (acc : Option Nat) : Option Nat :=
-    match l with
-    | [] => acc
-    | c :: rest => lastDot rest (i + 1) (if c = '.' then some i else acc)
-  match lastDot cs 0 none with
-  | none => ""
-  | some i => if 0 < i ∧ i < cs.length - 1 then String.ofList (cs.drop i) else ""
+    first nor the last character of the name; otherwise empty.  (On lists of characters.) -/
+def suffixChars (path : List Char) : List Char :=
+  let name := baseName path
+  match lastDot name 0 none with
+  | none => []
+  | some i => if 0 < i ∧ i + 1 < name.length then name.drop i else []
+
+def suffixOf (path : String) : String := String.ofList (suffixChars path.toList)
 
 /-- `inputpath.suffix in ['.lmpdat', '.cml', '.cif']` -/
 def inputIsNative (path : String) : Bool := [".lmpdat", ".cml", ".cif"].contains (suffixOf path)
